@@ -337,6 +337,10 @@ func checkDeclared(w *kit.World, c godi.Collection) {
 			if d.Type == kit.TypeS[s] && w.Regs[s].Present && w.Regs[s].Form != kit.IdInstance {
 				r = s
 			}
+			// every output of a multi-output constructor declares the constructor's dependencies
+			if d.Type == kit.TypeA[s] && w.Regs[s].Present && w.HasAux(s) {
+				r = s
+			}
 		}
 		if r < 0 {
 			continue
@@ -367,6 +371,7 @@ func checkDeclared(w *kit.World, c godi.Collection) {
 		}
 		vrt.Assert(ok, "C05.declared_edge_lost", "registration", r, "declares", len(want), "dependencies; the container recorded", len(d.Dependencies), "(or different ones)")
 		vrt.Assert(ok, "C07.declared_dependency_lost", "registration", r, "declares", len(want), "dependencies; the container recorded", len(d.Dependencies), "(or different ones)")
+		vrt.Assert(ok, "C06.declared_dependency_lost", "registration", r, "declares", len(want), "dependencies; the container recorded", len(d.Dependencies), "(or different ones) - construction order follows the recorded ones")
 		vrt.Assert(ok, "C08.declared_dependency_lost", "registration", r, "declares", len(want), "dependencies; the container recorded", len(d.Dependencies), "(or different ones)")
 	}
 }
